@@ -5,5 +5,5 @@ CONSTANTS
   Tier = "quick"
 INIT GenInit
 NEXT GenNext
-INVARIANT LemmaInv
+INVARIANTS LemPermute LemSplit LemUnknown LemDefaults LemFaults
 CHECK_DEADLOCK FALSE
